@@ -7,7 +7,7 @@ import json
 from vlib import core
 from vlib.coqterm import App
 from props import c01gen as G
-from props.c01 import mval, ival, Poison
+from props.c01 import mval, ival, Poison, numc
 
 HEADER = ('From Coq Require Import List ZArith NArith Bool.\nFrom DV Require Import C01.Syntax C01.Spec C01.Impl.\nImport ListNotations.\nOpen Scope Z_scope.\n'
           '(* contexts are given bottom first; the machine stack has the top first *)\n'
@@ -65,14 +65,14 @@ XML = '''<?xml version="1.0" encoding="UTF-8"?><definitions namespace="ns13" nam
 
 def model_expected(inv, va, vb):
     if inv == 'd1':
-        return {'num': va + 1}
+        return numc(va + 1)
     if inv == 'd2':
         ve = [k for k in (1, 5) if k > va]
-        ve_v = {'c': [['k', {'num': ve[0]}]]} if len(ve) == 1 else [{'c': [['k', {'num': k}]]} for k in ve]
-        return {'c': sorted([['vc', {'num': va * 2}], ['vd', [{'num': x * vb + va * 2} for x in (1, 2, 3)]], ['ve', ve_v]])}
+        ve_v = {'c': [['k', numc(ve[0])]]} if len(ve) == 1 else [{'c': [['k', numc(k)]]} for k in ve]
+        return {'c': sorted([['vc', numc(va * 2)], ['vd', [numc(x * vb + va * 2) for x in (1, 2, 3)]], ['ve', ve_v]])}
     if inv == 'd3':
-        return {'num': va + 1 + va * 2 + 3}
-    return {'num': vb * vb + 4}
+        return numc(va + 1 + va * 2 + 3)
+    return numc(vb * vb + 4)
 
 
 def split_contexts(rng, entries):
